@@ -148,6 +148,10 @@ Definition spec_step (e : env) (s : spec) (o : op) (obs : out) : spec * sexp :=
   | SetBal a z =>
       let x := sm_acct_get cur a in
       (sp_touch (sp_set_cur s (sm_acct_set cur a (mkSA (sa_nonce x) z (sa_code x) (sa_ch x)))) a, EAny)
+  | AddBal a z =>
+      if (z =? 0)%Z then (s, EAny)
+      else let x := sm_acct_get cur a in
+           (sp_touch (sp_set_cur s (sm_acct_set cur a (mkSA (sa_nonce x) (sa_bal x + z)%Z (sa_code x) (sa_ch x)))) a, EAny)
   | SetNonce a n =>
       let x := sm_acct_get cur a in
       (sp_touch (sp_set_cur s (sm_acct_set cur a (mkSA n (sa_bal x) (sa_code x) (sa_ch x)))) a, EAny)
@@ -342,10 +346,35 @@ Definition model_diff (e : env) (c : cfg) (h : hcase) : option N * bool :=
 
 (** mode: bit 0 = compare reads with the specification, bit 1 = check the roots,
     bit 2 = also the strict reading (existence flags, empty values in queries),
-    bit 3 = stored code hash = Keccak of the stored code in every raw dump ((2, 700000 + ...)).
+    bit 3 = stored code hash = Keccak of the stored code in every raw dump ((2, 700000 + ...)),
+    bit 4 = exact presence of storage values ((2, 300000 + ...)).
     Verdict detail: history index * 10000 + step for (1,_) and (2,_) from the specification;
     (2, 500000 + history index * 10000 + step) when only the strict reading fails;
     (2, 900000 + r) for a root check failure of kind r (see [fr_pair_check]). *)
+(** P_b, exact presence: the same predicate on an encoding of the trace in which a present value b
+    is written 1 :: b and an absent one is empty, so that "present and empty" and "absent" differ.
+    Only used on histories built for it (the implementation identifies the two when an empty
+    value is written to an absent key or a present-empty key is deleted: open finding). *)
+Definition enc_val (v : val) : val := match v with Some b => Some (1 :: b) | None => None end.
+Definition enc_op (o : op) : op :=
+  match o with
+  | SetSt a k v => SetSt a k (enc_val v)
+  | AddSt a k v => AddSt a k (enc_val v)
+  | o' => o'
+  end.
+Definition enc_sout (x : sout) : sout :=
+  match x with
+  | SGet ex v => SGet ex (if ex then Some (1 :: nb v) else None)
+  | x' => x'
+  end.
+Definition enc_out (x : out) : out :=
+  match x with
+  | OS s => OS (enc_sout s)
+  | OQuery ex l => OQuery ex (map enc_val l)
+  | ODump l => ODump (map enc_sout l)
+  | x' => x'
+  end.
+
 (** P_b, part 3: in every raw dump of the store, an account's code hash is the Keccak of the code
     stored for it (of the empty code when none is stored).  Some i = first dump that violates it. *)
 Definition db_code_consistent (e : env) (d : dbview) : bool :=
@@ -377,10 +406,16 @@ Definition pb_verdict (e : env) (mode : N) (g : list hcase) : verdict :=
                else None in
   let strict := if N.testbit mode 2
                 then first_some (map (fun h => fst (spec_agree true e spec0 (hc_ops h) (hc_outs h) 0)) g) 0 else None in
+  let exact := if N.testbit mode 4
+               then first_some (map (fun h => fst (spec_agree false e spec0 (map enc_op (hc_ops h)) (map enc_out (hc_outs h)) 0)) g) 0
+               else None in
   (* most severe first: failures no listed finding can explain before those one may explain *)
   match agree with
   | Some (hi, i) => V_propfalse (hi * 10000 + i)
   | None =>
+      match exact with
+      | Some (hi, i) => V_propfalse (300000 + hi * 10000 + i)
+      | None =>
       match dumps with
       | Some (hi, i) => V_propfalse (700000 + hi * 10000 + i)
       | None =>
@@ -389,6 +424,7 @@ Definition pb_verdict (e : env) (mode : N) (g : list hcase) : verdict :=
                | Some (hi, i) => V_propfalse (500000 + hi * 10000 + i)
                | None => if rc =? 0 then V_ok else V_propfalse (900000 + rc)
                end
+      end
       end
   end.
 
